@@ -5,6 +5,7 @@ package main
 
 import (
 	"encoding/json"
+	"fmt"
 	"io"
 	"math"
 	"math/big"
@@ -250,6 +251,7 @@ func cdistReplay(in io.Reader, raw bool, args []string) (*Summary, error) {
 		}
 	})
 	sum.note("worst_abs_error", worst)
+	cdistConcurrent(sum)
 	return sum, err
 }
 
@@ -427,4 +429,37 @@ func cdistRecord(out io.Writer, args []string) error {
 		}
 	}
 	return nil
+}
+
+// cdistConcurrent: the continuous distributions evaluated by many goroutines at once, every goroutine with other parameters.
+func cdistConcurrent(sum *Summary) {
+	var names []string
+	var calls []func() float64
+	add := func(name string, f func() float64) { names, calls = append(names, name), append(calls, f) }
+	for _, v := range []float64{0.5, 1, 2, 3, 4, 5.5, 9, 16, 30, 75, 150, 1000} {
+		d := stats.TDist{V: v}
+		for _, x := range []float64{-7.5, -1.25, -0.3, 0, 0.6, 1.5, 12} {
+			x := x
+			add(fmt.Sprintf("TDist{%v}.CDF(%v)", v, x), func() float64 { return d.CDF(x) })
+			add(fmt.Sprintf("TDist{%v}.PDF(%v)", v, x), func() float64 { return d.PDF(x) })
+		}
+		inv := stats.InvCDF(d)
+		for _, y := range []float64{0.05, 0.5, 0.975} {
+			y := y
+			add(fmt.Sprintf("InvCDF(TDist{%v})(%v)", v, y), func() float64 { return inv(y) })
+		}
+	}
+	for _, n := range []stats.NormalDist{{Mu: 0, Sigma: 1}, {Mu: -3, Sigma: 0.25}, {Mu: 1e6, Sigma: 40}} {
+		n := n
+		for _, z := range []float64{-6, -1, 0, 0.5, 3} {
+			x := n.Mu + z*n.Sigma
+			add(fmt.Sprintf("%+v.CDF(%v)", n, x), func() float64 { return n.CDF(x) })
+			add(fmt.Sprintf("%+v.PDF(%v)", n, x), func() float64 { return n.PDF(x) })
+		}
+		for _, y := range []float64{0.001, 0.3, 0.5, 0.99} {
+			y := y
+			add(fmt.Sprintf("%+v.InvCDF(%v)", n, y), func() float64 { return n.InvCDF(y) })
+		}
+	}
+	concurrentSame(sum, "continuous distributions", names, calls)
 }
